@@ -55,7 +55,10 @@ def cache(func: _F) -> _F:
         key = args + tuple(kwargs[name] for name in sorted(kwargs))
         template = self.registry.get(key)
         if template is None:
-            self.registry[key] = template = func(self, *args, **kwargs)
+            # (two threads that miss at the same time both construct the
+            # template; both must end up with the one that is registered)
+            template = self.registry.setdefault(
+                key, func(self, *args, **kwargs))
         return template
     return cast('_F', load)
 
